@@ -18,6 +18,7 @@ type c18Op struct {
 	Buf   int    `json:"buf,omitempty"`
 	Ms    int    `json:"ms,omitempty"`
 	Delta int    `json:"delta,omitempty"` // microseconds relative to the arrival instant
+	Both  bool   `json:"both,omitempty"`  // deadlines are set with SetDeadline (both directions) instead of SetRead/WriteDeadline
 }
 
 type c18Scn struct {
@@ -63,7 +64,7 @@ func genC18(rt *rapid.T) c18Scn {
 	}
 	n := rapid.IntRange(1, 24).Draw(rt, "nops")
 	for i := 0; i < n; i++ {
-		k := rapid.SampledFrom([]string{"w", "w", "w", "w0", "wbig", "wclosed", "r", "r", "rshort", "rdl", "rarr", "settle", "wdl", "wshut", "setmax"}).Draw(rt, "k")
+		k := rapid.SampledFrom([]string{"w", "w", "w", "w0", "wbig", "wclosed", "r", "r", "rshort", "rdl", "rdl2", "rarr", "settle", "wdl", "wshut", "setmax"}).Draw(rt, "k")
 		op := c18Op{K: k}
 		switch k {
 		case "w":
@@ -80,6 +81,11 @@ func genC18(rt *rapid.T) c18Scn {
 			op.Buf = rapid.SampledFrom([]int{0, 1, -1, -2}).Draw(rt, "buf") // <=0: message size + Buf
 		case "rdl":
 			op.Ms = rapid.SampledFrom([]int{1, 50, 1000}).Draw(rt, "ms")
+		case "rdl2":
+			// one deadline for several reads: the outstanding messages are read first (optionally
+			// after a short-buffer attempt), the read after them blocks until the deadline
+			op.Ms = rapid.SampledFrom([]int{300, 1000, 2500}).Draw(rt, "ms")
+			op.Buf = rapid.IntRange(0, 1).Draw(rt, "shortfirst")
 		case "rarr":
 			op.Size = rapid.SampledFrom([]int{1, 50, mm}).Draw(rt, "size")
 			if sc.RBuf != 0 && op.Size > sc.RBuf/2 {
@@ -96,6 +102,9 @@ func genC18(rt *rapid.T) c18Scn {
 			op.Ms = rapid.SampledFrom([]int{1, 100, 1500, 1, 100, -50, 0}).Draw(rt, "ms")
 			op.Size = rapid.IntRange(1, 1000).Draw(rt, "size")
 		}
+		if k == "rdl" || k == "rdl2" || k == "rarr" || k == "wdl" {
+			op.Both = rapid.IntRange(0, 3).Draw(rt, "both") == 0
+		}
 		sc.Ops = append(sc.Ops, op)
 	}
 	return sc
@@ -111,6 +120,18 @@ type c18Read struct {
 	at    time.Duration
 }
 
+// setDL arms (or clears) a deadline either with the one-direction call or with SetDeadline.
+func setDL(st *Stream, both, read bool, t time.Time) {
+	switch {
+	case both:
+		_ = st.SetDeadline(t)
+	case read:
+		_ = st.SetReadDeadline(t)
+	default:
+		_ = st.SetWriteDeadline(t)
+	}
+}
+
 func runC18(t *testing.T, x c18Scn, verbose bool) (c vfCase) {
 	var sc vfE1
 	sc.Cfg[0] = vfSideCfg{IL: x.IL, Block: x.Block, MaxMsg: x.MaxMsg, TSN: x.TSN, RTOMax: 2000}
@@ -118,7 +139,7 @@ func runC18(t *testing.T, x c18Scn, verbose bool) (c vfCase) {
 	sc.NoRead[1] = true
 	mm := sc.Cfg[0].maxMsg()
 	libMax := mm
-	failedBetween, shortOK, dlOK := false, false, false
+	failedBetween, shortOK, dlOK, dl2OK := false, false, false, false
 	out := vfRunE1(t, &sc, vfE1Opts{verbose: verbose,
 		eval: func(s *vfSim, out *vfE1Out) {
 			a0 := s.as[0]
@@ -341,7 +362,7 @@ func runC18(t *testing.T, x c18Scn, verbose bool) (c vfCase) {
 						continue
 					}
 					// a blocking write with a deadline; whether it blocks depends on the window
-					_ = hw.s.SetWriteDeadline(time.Now().Add(time.Duration(op.Ms) * time.Millisecond))
+					setDL(hw.s, op.Both, false, time.Now().Add(time.Duration(op.Ms)*time.Millisecond))
 					var n int
 					var err error
 					var b []byte
@@ -352,7 +373,7 @@ func runC18(t *testing.T, x c18Scn, verbose bool) (c vfCase) {
 					if op.Ms <= 0 {
 						c.class("write-deadline-already-over")
 					}
-					_ = hw.s.SetWriteDeadline(time.Time{})
+					setDL(hw.s, op.Both, false, time.Time{})
 					if !done {
 						c.fail("write-deadline-ignored", "%s: blocking write did not return by its deadline (+1 s)", what)
 						break
@@ -456,7 +477,7 @@ func runC18(t *testing.T, x c18Scn, verbose bool) (c vfCase) {
 					}
 					dl := time.Duration(op.Ms) * time.Millisecond
 					t0 := s.net.now()
-					_ = st.SetReadDeadline(time.Now().Add(dl))
+					setDL(st, op.Both, true, time.Now().Add(dl))
 					r := startRead(1 << 17)
 					s.o.run(func() bool { return r.done }, time.Now().Add(dl+time.Second))
 					if !r.done {
@@ -468,8 +489,52 @@ func runC18(t *testing.T, x c18Scn, verbose bool) (c vfCase) {
 					} else if r.at-t0 != dl {
 						c.fail("read-deadline-time", "%s: read returned after %v, deadline was %v", what, r.at-t0, dl)
 					}
-					_ = st.SetReadDeadline(time.Time{})
+					setDL(st, op.Both, true, time.Time{})
 					dlOK = true
+				case "rdl2":
+					s.o.settle(250 * time.Millisecond)
+					st := peerStream()
+					if len(expect) == 0 || st == nil {
+						continue
+					}
+					dl := time.Duration(op.Ms) * time.Millisecond
+					t0 := s.net.now()
+					setDL(st, op.Both, true, time.Now().Add(dl))
+					ok := true
+					if op.Buf == 1 {
+						r := startRead(0)
+						s.o.run(func() bool { return r.done }, time.Now().Add(dl+time.Second))
+						ok = r.done && errors.Is(r.err, io.ErrShortBuffer)
+					}
+					for ok && len(expect) > 0 && c.Verdict == "" {
+						r := startRead(1 << 17)
+						s.o.run(func() bool { return r.done }, time.Now().Add(dl+time.Second))
+						if !r.done {
+							c.fail("read-deadline-ignored", "%s: a read under a deadline of %v neither returned a message nor the deadline error", what, dl)
+							break
+						}
+						if r.err != nil {
+							// not yet arrived when the deadline passed: legal, the drain at the end reads it
+							ok = false
+							break
+						}
+						takeExpected(r, what)
+					}
+					if ok && c.Verdict == "" && s.net.now()-t0 < dl {
+						r := startRead(1 << 17)
+						s.o.run(func() bool { return r.done }, time.Now().Add(dl+time.Second))
+						switch {
+						case !r.done:
+							c.fail("read-deadline-ignored", "%s: after earlier reads under the same deadline had returned messages, a read with nothing pending did not return at the deadline (%v after SetReadDeadline)", what, dl)
+						case !errors.Is(r.err, ErrReadDeadlineExceeded):
+							c.fail("read-deadline-wrong-result", "%s: read with nothing pending returned n=%d err=%v", what, r.n, r.err)
+						case r.at-t0 != dl:
+							c.fail("read-deadline-time", "%s: read returned %v after SetReadDeadline, deadline was %v", what, r.at-t0, dl)
+						default:
+							dl2OK = true
+						}
+					}
+					setDL(st, op.Both, true, time.Time{})
 				case "rarr":
 					s.o.settle(250 * time.Millisecond)
 					st := peerStream()
@@ -479,13 +544,13 @@ func runC18(t *testing.T, x c18Scn, verbose bool) (c vfCase) {
 					// write now; it arrives after one base delay; the deadline is set around that instant
 					arrive := s.net.baseDelay[0]
 					dl := arrive + time.Duration(op.Delta)*time.Microsecond
-					_ = st.SetReadDeadline(time.Now().Add(dl))
+					setDL(st, op.Both, true, time.Now().Add(dl))
 					r := startRead(1 << 17)
 					if !goodWrite(min(op.Size, mm)) {
 						break
 					}
 					s.o.run(func() bool { return r.done }, time.Now().Add(dl+2*time.Second))
-					_ = st.SetReadDeadline(time.Time{})
+					setDL(st, op.Both, true, time.Time{})
 					if !r.done {
 						c.fail("read-deadline-ignored", "%s: read neither returned the message nor the deadline error", what)
 						break
@@ -577,7 +642,10 @@ func runC18(t *testing.T, x c18Scn, verbose bool) (c vfCase) {
 			if dlOK {
 				c.class("read-deadline")
 			}
-			c.Nontrivial = failedBetween || shortOK || dlOK
+			if dl2OK {
+				c.class("one-deadline-several-reads")
+			}
+			c.Nontrivial = failedBetween || shortOK || dlOK || dl2OK
 		}})
 	if out.Panic != "" && c.Verdict == "" {
 		c.fail("bubble-panic", "bubble: %s", out.Panic)
